@@ -367,6 +367,58 @@ def match_truth_oracle(ctx):
     _run(ctx, "match_truth", 1200, 30000, make, match_truth_check)
 
 
+def match_eq_oracle(ctx):
+    """`==` between the first matches of a query: python's Match.__eq__ against the model's
+    `matchEq` (whose theorems say: element-wise comparison of the two chains) — the tie of
+    `C11.eq_iff_chains` to the code.  Documents carry equal sub-trees under different and under
+    equal names so that both outcomes occur."""
+    import corr
+    n = ctx.scale(400, 12000)
+    scs = []
+    for i in range(n):
+        rng = ctx.rng
+        sc = gen.gen_query(rng, "nopar", api="find_matches", with_src=False)
+        if rng.random() < 0.6:
+            # duplicate a sub-tree: equal data at a different location, or a twin list of equal items
+            d = dec(sc["doc"])
+            if isinstance(d, dict) and d:
+                k = rng.choice(list(d.keys()))
+                d[rng.choice(gen.KEYS)] = json.loads(json.dumps(d[k]))
+            elif isinstance(d, list) and d:
+                d.append(json.loads(json.dumps(d[rng.randrange(len(d))])))
+            sc["doc"] = enc(d)
+            r2 = rng.random()
+            if r2 < 0.4:
+                sc["path"] = [rng.choice([["gwc"], ["rec"]])] + sc["path"][1:3]
+            elif r2 < 0.7 and isinstance(d, dict) and d:
+                k1 = rng.choice(list(d.keys()))
+                sc["path"] = [["t", [k1, rng.choice(list(d.keys())), k1]]] + sc["path"][1:2]   # repeats: equal chains
+            elif r2 < 0.8 and isinstance(d, list) and d:
+                sc["path"] = [["t", [0, -len(d), 0]]] + sc["path"][1:2]
+        scs.append({"fam": "q", "id": 40_000_000 + i, "doc": sc["doc"], "path": sc["path"], "api": "find_matches", "nexts": 1})
+    outs = corr.run_driver(scs)
+    bad = 0
+    nontriv = 0
+    for sc in scs:
+        o = outs.get(sc["id"])
+        if not o or "error" in o or "eqm" not in o.get("out", {}):
+            continue
+        try:
+            ms = list(itertools.islice(find_matches(Builder([]).steps(sc["path"]), dec(sc["doc"])), 6))
+            py = [[bool(a == b) for b in ms] for a in ms]
+        except TreepathException:
+            continue
+        mo = o["out"]["eqm"]
+        same_data = any(i != j and a.data == b.data for i, a in enumerate(ms) for j, b in enumerate(ms))
+        if len(py) >= 2 and (same_data or any(any(r[:i] + r[i + 1:]) for i, r in enumerate(py))):
+            nontriv += 1        # a pair that is equal, or that differs only in its names
+        if py != mo and bad < 3:
+            _viol(ctx, "match_eq", f"Match.__eq__ over the first {len(py)} matches: python {py} model {mo}",
+                  {k: v for k, v in sc.items() if k != "id"})
+            bad += 1
+    ctx.support["match_eq"] = dict(cases=len(scs), nontrivial=nontriv, failures=bad)
+
+
 # ---------------- C12: concatenation ----------------
 
 def concat_check(sc):
